@@ -405,7 +405,8 @@ def replaceElements (atmost : List APred) (inPlace : Bool) (elements : List BAgg
 def sumAggregates (body : List BLit) : List (Nat × List BAggElem) :=
   (List.range body.length).zip body |>.filterMap fun (i, b) =>
     match b with
-    | .lit (_, .bagg _ _ _ f elems _) => if f == .sum || f == .sump then some (i, elems) else none
+    -- fix 470d5b6 (known_findings.json `fixed:`): `#sum` only, `#sum+` aggregates are left alone
+    | .lit (_, .bagg _ _ _ f elems _) => if f == .sum then some (i, elems) else none
     | _ => none
 
 structure AggDecision where
